@@ -144,7 +144,7 @@ func (a *Activation) callContract(ins *ssa.Call, g *ssa.Function, spec *FuncSpec
 			for key, conds := range fr.fields {
 				for _, f := range conds {
 					r := c.boundVar("r")
-					goal := fmt.Sprintf("(forall ((%s Int)) %s)", r, implies(and(app("<=", r, pre.alloc), f(r)), x.frame.allowsField(key, r, x.alloc0)))
+					goal := fmt.Sprintf("(forall ((%s Int)) %s)", r, implies(and(app("<", "0", r), app("<=", r, pre.alloc), f(r)), x.frame.allowsField(key, r, x.alloc0)))
 					x.oblige(a.oname("frame:call:"+site), sanitize(key), *rc, goal, ins.Pos(), nil, "callee may modify "+key+" only inside the caller's modifies clause")
 				}
 			}
